@@ -126,16 +126,26 @@ class Model:
         raise AssertionError(op)
 
 
+OTHER_SERIALIZER = {"serpent": "json", "json": "msgpack", "msgpack": "serpent"}     # (marshal has no per-type hooks: no auto-proxying by design)
+
+
 class World:
-    def __init__(self, serializer="serpent"):
+    def __init__(self, serializer="serpent", variant="id"):
         from vf.syncworld import SyncWorld
         from vf import targets
         from Pyro5 import client
         self.w = SyncWorld(SERIALIZER=serializer)
+        self.serializer = serializer
         self.targets = targets
         self.client = client
         self.d = self.w.daemon()
-        self.pool = {"o1": targets.RegT("o1"), "o2": targets.RegT("o2"), "K": targets.RegK}
+        # classes are made per world: the serializers' type hooks are process-global, and a class seen by an earlier world would
+        # hide what registration does (or fails to do) for a class the process meets for the first time.
+        # variant "eq": all pool objects compare equal to anything (value equality must never stand in for identity)
+        ns = {"__eq__": (lambda a, b: True), "__ne__": (lambda a, b: False), "__hash__": (lambda a: 7)} if variant == "eq" else {}
+        self.T = type("RegT", (targets.RegT,), ns)
+        self.K = type("RegK", (targets.RegK,), {})
+        self.pool = {"o1": self.T("o1"), "o2": self.T("o2"), "K": self.K}
         self.refs = {l: weakref.ref(o) for l, o in self.pool.items() if l != "K"}
         self.host = targets.RegHost()
         targets.RegHost.pool = self.pool
@@ -155,8 +165,23 @@ class World:
                         except Exception:
                             pass
         for a in ("_pyroId", "_pyroDaemon"):
-            if a in vars(self.targets.RegK):
-                delattr(self.targets.RegK, a)
+            if a in vars(self.K):
+                delattr(self.K, a)
+        # best effort: forget the per-world classes in the process-global hook tables (otherwise they merely stay allocated)
+        try:
+            import serpent
+            from Pyro5 import serializers
+            for cls in (self.T, self.K):
+                for ser in serializers.serializers.values():
+                    for attr in dir(type(ser)):
+                        if attr.endswith("__type_replacements"):
+                            getattr(type(ser), attr).pop(cls, None)
+                try:
+                    serpent.unregister_class(cls)
+                except Exception:
+                    pass
+        except Exception:
+            pass
         self.w.close()
 
     def apply(self, op, errors):
@@ -210,7 +235,7 @@ class World:
                 continue
             weak = isinstance(o, weakref.ref)
             t = o() if weak else o
-            lab = "K" if t is self.targets.RegK else getattr(t, "label", "dead" if t is None else "?")
+            lab = "K" if t is self.K else getattr(t, "label", "dead" if t is None else "?")
             objs.append((self.norm_id(i), lab, weak))
         attrs = []
         for lab in LABELS:
@@ -319,7 +344,7 @@ def observe(world, model, errors, V, hist, st):
                         px._pyroRelease()
             else:
                 # differential: must travel exactly like a never-registered instance of the same class
-                world.pool["fresh"] = world.targets.RegT("fresh")
+                world.pool["fresh"] = world.T("fresh")
                 try:
                     fr = ("ok", hostp._pyroInvoke("give", ("fresh",), {}))
                 except Exception as x:
@@ -329,6 +354,32 @@ def observe(world, model, errors, V, hist, st):
                 b = (fr[0], type(fr[1]).__name__ if fr[0] == "ok" else fr[1].split(":")[0])
                 if a != b:
                     V("unregistered-object-does-not-travel-by-value|%s-vs-%s" % (a[1], b[1]), "object %s (unregistered) arrives as %s, a never-registered one as %s" % (lab, show(res), show(fr)), hist)
+            # the same through a client that speaks another serializer than the daemon's configured one
+            cs = OTHER_SERIALIZER[world.serializer]
+            hp2 = client.Proxy("PYRO:host@h:1")
+            hp2._pyroSerializer = cs
+            st.points += 1
+            try:
+                try:
+                    res2 = ("ok", hp2._pyroInvoke("give", (lab,), {}))
+                except Exception as x:
+                    res2 = ("exc", type(x).__name__ + ":" + str(x)[:80])
+                if ids:
+                    if res2[0] != "ok" or not isinstance(res2[1], client.Proxy):
+                        V("registered-object-not-returned-as-proxy|other-serializer|%s" % (res2[0] if res2[0] != "ok" else type(res2[1]).__name__),
+                          "object %s (ids %r) arrives as %s at a %s client of a %s daemon" % (lab, ids, show(res2), cs, world.serializer), hist)
+                    else:
+                        try:
+                            if res2[1]._pyroInvoke("who", (), {}) != lab:
+                                V("returned-proxy-reaches-other-object", "proxy for %s (client serializer %s)" % (lab, cs), hist)
+                        except Exception as x:
+                            V("returned-proxy-unusable|%s" % type(x).__name__, "%r (client serializer %s)" % (x, cs), hist)
+                        finally:
+                            res2[1]._pyroRelease()
+                elif res2[0] == "ok" and isinstance(res2[1], client.Proxy):
+                    V("unregistered-object-does-not-travel-by-value|Proxy-other-serializer", "object %s (unregistered) arrives as a proxy at a %s client" % (lab, cs), hist)
+            finally:
+                hp2._pyroRelease()
     finally:
         hostp._pyroRelease()
 
@@ -336,7 +387,8 @@ def observe(world, model, errors, V, hist, st):
 def expand_task(unit):
     """unit = (quick, serializer, history). replays the history, observes, and returns successor (key, history) pairs"""
     from Pyro5 import errors
-    quick, sername, hist = unit
+    quick, sername, hist = unit[:3]
+    variant = unit[3] if len(unit) > 3 else "id"
     st = Stats()
     seen = set()
     succ = []
@@ -345,10 +397,10 @@ def expand_task(unit):
         fp = "C16|" + fp
         if fp not in seen:
             seen.add(fp)
-            st.violations.append({"fingerprint": fp, "what": "%s; history=%r serializer=%s" % (what, h, sername), "replay": {"history": [list(o) for o in h], "serializer": sername}})
+            st.violations.append({"fingerprint": fp, "what": "%s; history=%r serializer=%s objects=%s" % (what, h, sername, variant), "replay": {"history": [list(o) for o in h], "serializer": sername, "variant": variant}})
 
     def replay(h):
-        world = World(sername)
+        world = World(sername, variant)
         model = Model()
         model.double_until = 2 if quick else 3
         ok = True
@@ -443,8 +495,10 @@ def run(ctx):
         units = []
         for i, h in enumerate(frontier):
             # serializer only matters for the auto-proxy leg: rotate deterministically, all three at the shallow levels
+            # the 'eq' variant (pool objects that compare equal to everything) is the stronger adversary: both at the shallow levels, 'eq' below
             for s in (sers if level <= 1 else [sers[i % 3]]):
-                units.append((ctx.quick, s, [tuple(o) for o in h]))
+                for variant in (("id", "eq") if level <= 1 else ("eq",)):
+                    units.append((ctx.quick, s, [tuple(o) for o in h], variant))
         nxt = []
         level_succ = []
         for st, succ in ctx.pmap(expand_task, units):
@@ -469,7 +523,8 @@ def run(ctx):
              "object and by id; dropping the application's last reference + collection) to depth %d, each history replayed on a fresh real daemon; states deduplicated by "
              "(registry contents, per-object _pyroId/_pyroDaemon attributes, liveness); in every state: registered() vs model, a call to every id (whose log records it), "
              "uriFor, and returning each pool object from a remote method (proxy reaching that very object vs by-value like a never-registered instance) under serpent/"
-             "json/msgpack; distinct = distinct states" % (len(alphabet(ctx.quick)), depth + 1),
+             "json/msgpack, also through a client speaking another serializer than the daemon's; pool classes are created per replay (type hooks are process-global) and, below "
+             "depth 2, their instances compare equal to everything (identity, not equality, must decide); distinct = distinct states" % (len(alphabet(ctx.quick)), depth + 1),
         nontrivial=len(seen), extra={"state_cap_hit": capped})
     cov["exhaustive"] = not capped
     return {"violations": total.violations, "coverage": cov,
@@ -482,6 +537,6 @@ def replay(ctx, payload):
     hist = [tuple(o) for o in r["history"]]
     out = []
     for h in (hist[:-1], hist):
-        st, _ = expand_task((False, r["serializer"], list(h)))
+        st, _ = expand_task((False, r["serializer"], list(h), r.get("variant", "id")))
         out.extend(v for v in st.violations if v["fingerprint"] == payload["fingerprint"])
     return {"violations": out}
